@@ -162,14 +162,20 @@ class TFWriterSeam:
                 fs.effect("tf_open", path, 0)
 
             def write(self, record):
+                if fs.dead:
+                    raise fslayer.SimCrash()
                 self._w.write(record)
                 fs.effect("tf_write", self._path, len(record))
 
             def flush(self):
+                if fs.dead:
+                    raise fslayer.SimCrash()
                 self._w.flush()
                 fs.effect("tf_flush", self._path, 0)
 
             def close(self):
+                if fs.dead:
+                    raise fslayer.SimCrash()
                 self._w.close()
                 fs.effect("tf_close", self._path, 0)
 
@@ -254,6 +260,12 @@ def run_crash_case(case: dict) -> dict:
                     except Violation as v:
                         state["violation"] = v
                         raise
+                    if state["instants"] == case.get("crash_at"):
+                        # the process is killed right here: nothing it does
+                        # from now on reaches the disk
+                        state["crashed_at"] = (ev[0], kind, ev[3])
+                        fs.kill()
+                        raise fslayer.SimCrash()
 
                 fs.hooks.append(hook)
                 fs.chunk = case.get("chunk", 0)
@@ -289,6 +301,9 @@ def run_crash_case(case: dict) -> dict:
                     hr.run_session(last)
                     completed += 1
                     probes["crashing_session_completed"] += 1
+                except fslayer.SimCrash:
+                    hr.model.abort()
+                    probes["process_killed"] += 1
                 except (S.SimDeadlock, S.SimStepLimit, S.SimAbort, Violation):
                     raise
                 except Exception:  # pylint: disable=broad-except
@@ -303,12 +318,58 @@ def run_crash_case(case: dict) -> dict:
                 if state["violation"] is not None:
                     raise state["violation"]
                 sc.drain("drain.reader")
+                if state.get("crashed_at"):
+                    # ---------------- restart: a new process on the disk
+                    # state the kill left behind writes one more session
+                    fs.revive()
+                    with fs.suspended():
+                        crash_oracle(hr, tracker, lower, upper, stats,
+                                     "after the kill, before restart")
+                    after = case.get("after")
+                    if after:
+                        hist2 = dict(hist)
+                        hist2["sessions"] = list(hist["sessions"]) + [after]
+                        hr2 = dsgen.HistoryRunner(
+                            hist2, root,
+                            pool_factory=lambda ses: simexec.SimPool)
+                        hr2.model = hr.model
+                        ok2 = True
+                        try:
+                            hr2.reopen()
+                            hr2.run_session(last + 1)
+                        except (S.SimDeadlock, S.SimStepLimit, S.SimAbort,
+                                Violation):
+                            raise
+                        except Exception as e:  # pylint: disable=broad-except
+                            # continued writing after a *crash* is promised by
+                            # no property; only its effect on data is checked
+                            hr2.model.abort()
+                            ok2 = False
+                            probes["session_after_restart_raised_" +
+                                   type(e).__name__] += 1
+                        with fs.suspended():
+                            lower2 = {s: list(hr2.model.ids(s))
+                                      for s in hr2.model.committed}
+                            upper2 = {s: list(v) for s, v in upper.items()}
+                            aw = after.get("writes") or [
+                                w for ws in after.get("writers", [])
+                                for w in ws]
+                            for w in aw:
+                                upper2.setdefault(w["split"], []).append(
+                                    w["id"])
+                            crash_oracle(hr2, tracker, lower2, upper2, stats,
+                                         "after restart and one more session"
+                                         + ("" if ok2 else " (which raised)"))
+                        if ok2:
+                            probes["session_after_restart_completed"] += 1
+                        hr = hr2
                 # final state (no crash): everything committed is there
                 with fs.suspended():
-                    final_lower = {s: list(hr.model.ids(s))
-                                   for s in hr.model.committed}
-                    crash_oracle(hr, tracker, final_lower, upper, stats,
-                                 "after the session completed")
+                    if not state.get("crashed_at"):
+                        final_lower = {s: list(hr.model.ids(s))
+                                       for s in hr.model.committed}
+                        crash_oracle(hr, tracker, final_lower, upper, stats,
+                                     "after the session completed")
                     if reader_out["done"]:
                         if reader_out["error"] is not None:
                             e = reader_out["error"]
@@ -372,6 +433,8 @@ def run_crash_case(case: dict) -> dict:
         "nontrivial": state["instants"] > 5,
         "stats": dict(stats), "probes": dict(probes),
         "faults": {"process_crash_points": stats["crash_instants_evaluated"],
+                   "process_killed_and_restarted":
+                   probes.get("process_killed", 0),
                    "torn_writes": probes.get("torn_write_instants", 0),
                    "concurrent_reader": 1 if reader_out["started_at"]
                    is not None else 0},
@@ -381,6 +444,7 @@ def run_crash_case(case: dict) -> dict:
                             (len(v) if k == "writes" else [len(x) for x in v]))
                         for k, v in s.items()} for s in hist["sessions"]],
                    "crash_instants": state["instants"],
+                   "killed_at": state.get("crashed_at"),
                    "reader_started_at": reader_out["started_at"]},
     })
     if not out["ok"] and "choices" not in case:
